@@ -88,9 +88,94 @@ def gen_stress(seed, tier):
     return cases
 
 
+PROM_ENGINES = ["prom_int", "prom_void", "prom_uptr", "prom_ref", "prom_cnt"]
+
+
+def gen_prom(seed, tier):
+    """op sequences over 4 promise slots, 2 bind closures and 3 futures (harness/seq_prom.cpp).  A shadow of which slot
+    holds an object / is believed to own a future only steers the choice of ops (mostly valid, aimed at: assignment onto a
+    live / empty promise from a live / empty / moved-from source, self assignment, calls through moved-from promises,
+    explicit drop, bind closures called twice or dropped, waiters parked on a future whose promise is overwritten)."""
+    rng = random.Random(seed * 104729 + 404)
+    n = 600 if tier == "quick" else 8000
+    cases = []
+    for i in range(n):
+        eng = PROM_ENGINES[i % len(PROM_ENGINES)]
+        obj = [False] * 4; own = [None] * 4; clo = [None] * 2; clo_obj = [False] * 2
+        taken = [False] * 3; wid = 0
+        ops = []
+        L = rng.choice([4, 6, 8, 10, 14, 20])
+        for _ in range(L):
+            r = rng.random()
+            free_cells = [c for c in range(3) if not taken[c]]
+            live = [p for p in range(4) if obj[p]]
+            dead = [p for p in range(4) if not obj[p]]
+            if r < 0.08:   # malformed / out of range / wrong state
+                ops.append(rng.choice([[3, rng.randint(0, 5), rng.randint(0, 5)], [6, rng.randint(0, 5), 1], [2, rng.randint(0, 4), rng.randint(0, 4)],
+                                       [1, rng.randint(0, 4), rng.randint(0, 3)], [5, rng.randint(0, 5)], [10, rng.randint(0, 2)], [99], [3, -1, 0],
+                                       [14, wid, rng.randint(0, 3), rng.randint(0, 2)], [9, rng.randint(0, 2), rng.randint(0, 4), 5]]))
+                if eng == "prom_ref" and ops[-1][0] == 9:   # bind decays its arguments: not offered for reference futures
+                    ops.pop()
+                continue
+            kind = rng.choice(["get", "get", "movec", "assign", "assign", "assign", "assignget", "destroy", "val", "val", "exc", "drop",
+                               "bind", "callclo", "destroyclo", "sub", "sub", "qcell", "qprom"])
+            if kind == "get" and dead and free_cells:
+                p = rng.choice(dead); c = rng.choice(free_cells)
+                ops.append([1, p, c]); obj[p] = True; own[p] = c; taken[c] = True
+            elif kind == "movec" and dead and live:
+                p = rng.choice(dead); q = rng.choice(live)
+                ops.append([2, p, q]); obj[p] = True; own[p] = own[q]; own[q] = None
+            elif kind == "assign" and live:
+                p = rng.choice(live); q = rng.choice(live)
+                ops.append([3, p, q])
+                if p != q: own[p] = own[q]; own[q] = None
+            elif kind == "assignget" and live and free_cells:
+                p = rng.choice(live); c = rng.choice(free_cells)
+                ops.append([4, p, c]); own[p] = c; taken[c] = True
+            elif kind == "destroy" and live:
+                p = rng.choice(live); ops.append([5, p]); obj[p] = False; own[p] = None
+            elif kind == "val" and live:
+                p = rng.choice(live); ops.append([6, p, rng.randint(1, 99)]); own[p] = None
+            elif kind == "exc" and live:
+                p = rng.choice(live); ops.append([7, p, rng.randint(1, 99)]); own[p] = None
+            elif kind == "drop" and live:
+                p = rng.choice(live); ops.append([8, p]); own[p] = None
+            elif kind == "bind" and live and eng != "prom_ref" and not all(clo_obj):
+                q = rng.choice([x for x in range(2) if not clo_obj[x]]); p = rng.choice(live)
+                ops.append([9, q, p, rng.randint(1, 99)]); clo_obj[q] = True; own[p] = None
+            elif kind == "callclo" and any(clo_obj):
+                ops.append([10, rng.choice([x for x in range(2) if clo_obj[x]])])
+            elif kind == "destroyclo" and any(clo_obj):
+                q = rng.choice([x for x in range(2) if clo_obj[x]]); ops.append([11, q]); clo_obj[q] = False
+            elif kind == "sub" and any(taken):
+                c = rng.choice([x for x in range(3) if taken[x]]); ops.append([14, wid, c, rng.randint(0, 1)]); wid += 1
+            elif kind == "qcell":
+                ops.append([15, rng.randint(0, 2)])
+            elif kind == "qprom" and live:
+                ops.append([16, rng.choice(live)])
+        cases.append(Case(eng, "p%d" % i, ops))
+    if tier != "quick":
+        # systematic: every pair of states (live / empty / moved-from) for target and source of an assignment, with a waiter
+        j = 0
+        for tgt in range(3):
+            for src in range(3):
+                for wk in range(2):
+                    for after in ([6, 0, 5], [6, 1, 5], [8, 1], [5, 1], [2, 2, 1], [3, 1, 0]):
+                        ops = [[1, 0, 0], [1, 1, 1], [14, 0, 0, wk], [14, 1, 1, wk]]
+                        ops += {0: [], 1: [[8, 0]], 2: [[2, 2, 0]]}[tgt]
+                        ops += {0: [], 1: [[8, 1]], 2: [[2, 3, 1]]}[src]
+                        ops += [[3, 0, 1], [15, 0], [15, 1], [16, 0], [16, 1], after, [15, 0], [15, 1]]
+                        cases.append(Case(PROM_ENGINES[j % 5], "ps%d" % j, ops)); j += 1
+    return cases
+
+
 def nontrivial(case, model_obs):
     if case.engine == "cell_stress":
         return True
+    if case.engine.startswith("prom_"):
+        # at least one move operation accepted and at least one future resolved
+        kinds = [o[0] for o in case.ops if o]
+        return any(k in (2, 3, 4, 9) for k in kinds) and any(l.split()[0] == "1" for l in model_obs[:len(case.ops)])
     # a schedule is non-trivial when at least two different threads take steps before the first one finishes,
     # i.e. the trace is not a concatenation of whole threads
     tids = [l.split()[0] for l in model_obs if len(l.split()) == 2]
@@ -101,6 +186,9 @@ def nontrivial(case, model_obs):
 def signature(case, impl_obs, model_obs):
     if case.engine == "cell_stress":
         return "cell:stress"
+    if case.engine.startswith("prom_"):
+        last = impl_obs[-1] if impl_obs else ""
+        return "prom:" + (last.split()[1] if last.startswith("CRASH") else "HANG" if last == "HANG" else "oracle")
     last = impl_obs[-1] if impl_obs else ""
     if last.startswith("CRASH"):
         return "cell:" + last.split()[1]
